@@ -18,6 +18,7 @@ PREAMBLE = [
 # bound on the undeclared property's name (C15): longer than every property name of the metamodel (max 33), so that a
 # hook probing for ANY protocol key that is undeclared at the position is within reach of the solver
 XNAME_MAX = 40
+SPARSE = 2  # see the second pass in run()
 
 
 def cfg_for(tier):
@@ -124,6 +125,26 @@ def run(chk, mode, tier, timeout=None, skip_alias_roots=False):
             body = ["return dispatch.run_lemma(KEY, %r, %s)" % (lid, lm.al.env_expr())]
         lemmas.append(xh.Lemma(lid, params, body, pre=pre, meta={"site": lm.site}, cost=1 + lm.al.nbits))
     results, stats = xh.run(lemmas, preamble(cfg, extra), timeout=timeout, label=mode.lower())
+    # second pass for lemmas whose path space was not exhausted (typically a handler that walks ALL keys of the object,
+    # forking on every presence bit): the same lemma restricted to sparse objects - at most SPARSE optional members /
+    # list elements present - has a path space the solver does exhaust; a counterexample found there is replayed like any
+    # other, a confirmation there does not lift the inconclusive verdict of the full lemma.
+    by_id = {l.id: l for l in lemmas}
+    sparse = []
+    for lid, r in results.items():
+        l = by_id[lid]
+        nb = table[lid].al.nbits
+        if r.verdict == "inconclusive" and nb > SPARSE:
+            sparse.append(xh.Lemma(lid + "_sp", l.params, l.body, pre=l.pre + ["(" + " + ".join("b%d" % i for i in range(nb)) + ") <= %d" % SPARSE], meta=l.meta, cost=l.cost))
+    if sparse:
+        res2, st2 = xh.run(sparse, preamble(cfg, extra), timeout=timeout, label=mode.lower() + "sp")
+        stats["cpu_s"] += st2["cpu_s"]
+        chk.ev.coverage.setdefault("sparse_second_pass", {"bound": "at most %d presence bits set" % SPARSE, "lemmas": {}})
+        for sid, r2 in res2.items():
+            lid = sid[:-3]
+            chk.ev.coverage["sparse_second_pass"]["lemmas"][table[lid].site] = r2.verdict
+            if r2.verdict == "refuted":
+                results[lid] = r2
     counts = xh.summarize(results)
     chk.ev.add_counts(counts)
     chk.ev.coverage["solver_seconds"] += stats["cpu_s"]
